@@ -193,7 +193,8 @@ def gen(snapshot=None):
         pre = arith(need(r"pub const PRE_HEADER_SIZE: usize = ([^;]+);", hd, "PRE_HEADER_SIZE").group(1))
         w(f"Definition PRE_HEADER_SIZE : N := {pre}.")
         ar = src("bitar/src/archive.rs")
-        legacy = need(r'!= b"((?:[^"\\]|\\.)*)"', ar, "legacy magic literal in verify_pre_header")
+        vph = need(r"fn verify_pre_header(.*?)\n    }\n", ar, "verify_pre_header").group(1)
+        legacy = need(r'b"((?:[^"\\]|\\.)*)"', vph, "legacy magic literal in verify_pre_header")
         lbytes = bytes(legacy.group(1), "utf-8").decode("unicode_escape").encode("latin1")
         w("Definition LEGACY_MAGIC : list N := [" + "; ".join(str(b) for b in lbytes) + "].")
         hs = src("bitar/src/hashsum.rs")
@@ -342,17 +343,17 @@ def gen(snapshot=None):
         # ---- order of effectful steps of clone_archive --------------------------------------
         body = need(r"async fn clone_archive<R>\(opts: Options, reader: R\)(.*?)\n}\n", cl, "clone_archive body").group(1)
         steps = [
-            ("TryInit", r"Archive::try_init\(reader\)"),
-            ("PrintArchive", r"info_cmd::print_archive\(&archive\)"),
-            ("HeaderCheck", r"if let Some\(ref expected_checksum\) = opts\.header_checksum"),
-            ("OpenOutput", r"tokio::fs::OpenOptions::new\(\)"),
-            ("BlockDevCheck", r"is_block_dev\(&output_file\)"),
+            ("TryInit", r"Archive::try_init\("),
+            ("PrintArchive", r"print_archive\("),
+            ("HeaderCheck", r"opts\.header_checksum"),
+            ("OpenOutput", r"OpenOptions::new\(\)"),
+            ("BlockDevCheck", r"is_block_dev\("),
             ("ScanOutput", r"chunk_index_from_readable\("),
-            ("Reorder", r"\.reorder_in_place\(output_index\)"),
-            ("SeedStdin", r"if opts\.seed_stdin"),
-            ("SeedFiles", r"for seed_path in &opts\.seed_files"),
-            ("FetchArchive", r"clone_from_archive\(opts\.num_chunk_buffers"),
-            ("SetLen", r"\.set_len\(archive\.total_source_size\(\)\)"),
+            ("Reorder", r"\.reorder_in_place\("),
+            ("SeedStdin", r"opts\.seed_stdin"),
+            ("SeedFiles", r"opts\.seed_files"),
+            ("FetchArchive", r"clone_from_archive\("),
+            ("SetLen", r"\.set_len\("),
             ("VerifyOutput", r"if opts\.verify_output"),
         ]
         pos = []
@@ -379,7 +380,9 @@ def gen(snapshot=None):
         # the output file is flushed (last write awaited, its error reported) before set_len / success
         tail = body[body.find("output.into_inner()"):]
         pre_setlen = tail[:tail.find(".set_len(")] if ".set_len(" in tail else tail
-        flushes = bool(re.search(r"output_file\s*\.(flush|sync_all|sync_data|shutdown)\(\)\s*\.await", pre_setlen))
+        # (only flush/shutdown return a stashed write error: tokio's sync_all/sync_data/set_len wait for the write in
+        #  flight but keep its error for a later call -- Model/OutFile.v)
+        flushes = bool(re.search(r"output_file\s*\.(flush|shutdown)\(\)\s*\.await", pre_setlen))
         w(f"Definition clone_flushes_output : bool := {'true' if flushes else 'false'}.")
         facts["clone_flushes_output"] = flushes
 
@@ -411,29 +414,37 @@ def gen(snapshot=None):
 
     _run_section('compresssteps', _sec_compresssteps, sections, broken, facts, ctx, snapshot)
     def _sec_pincheck(w, facts, ctx):
-        cl = src("src/clone_cmd.rs")
+        cl = strip_comments(src("src/clone_cmd.rs"))
         # ---- --verify-header: the condition under which the clone is refused, as a boolean term over what the
-        # two comparisons in it observe (HashSum equality compares the common prefix only) -------------------
-        blk = need(r"if let Some\(ref expected_checksum\) = opts\.header_checksum \{(.*?)\n    \}\n", cl,
-                   "header checksum check").group(1)
-        blk = strip_comments(blk)
-        cond = need(r"^\s*if (.*?)\{\s*return Err\(anyhow!\(\"Header checksum mismatch\"\)\);", blk,
-                    "header checksum mismatch condition").group(1)
-        cond = re.sub(r"\s+", " ", cond).strip()
-        atoms = {
-            "expected_checksum.len() != archive.header_checksum().len()": "opts.len_differs",
-            "archive.header_checksum().len() != expected_checksum.len()": "opts.len_differs",
-            "*expected_checksum != *archive.header_checksum()": "opts.prefix_differs",
-            "*archive.header_checksum() != *expected_checksum": "opts.prefix_differs",
-            "expected_checksum != archive.header_checksum()": "opts.prefix_differs",
-        }
-        for k, v in atoms.items():
-            cond = cond.replace(k, v)
+        # two comparisons in it observe (HashSum equality compares the common prefix only). The check may be
+        # written inline in clone_archive or in a helper taking (expected, actual). ---------------------------
+        body = need(r"async fn clone_archive<R>\(opts: Options, reader: R\)(.*?)\n}\n", cl, "clone_archive body").group(1)
+        bind = need(r"if let Some\((?:ref )?(\w+)\) = &?opts\.header_checksum", body, "binding of the expected header checksum")
+        exp_name = bind.group(1)
+        m = re.search(r"if ([^{}]*?)\{\s*return Err\(anyhow!\(\"Header checksum mismatch\"\)\);", cl, re.S)
+        if not m:
+            raise TranslateError("anchor not found: header checksum mismatch condition")
+        cond = re.sub(r"\s+", " ", m.group(1)).strip()
+        if m.start() >= cl.find("async fn clone_archive<R>") and m.start() < cl.find("async fn clone_archive<R>") + len(body) + 60:
+            e_name, a_expr = exp_name, r"archive\.header_checksum\(\)"
+        else:
+            # inside a helper: fn NAME(p1: &HashSum, p2: &HashSum) called as NAME(<expected>, archive.header_checksum())
+            fn = None
+            for f in re.finditer(r"fn (\w+)\((\w+): &HashSum, (\w+): &HashSum\)[^{]*\{", cl):
+                if f.end() <= m.start():
+                    fn = f
+            if fn is None:
+                raise TranslateError("header checksum condition is in a function of unknown shape")
+            need(fn.group(1) + r"\(\s*" + exp_name + r",\s*archive\.header_checksum\(\)\s*\)", body,
+                 "call of the header checksum helper with (expected, actual)")
+            e_name, a_expr = fn.group(2), re.escape(fn.group(3))
+        E, A = r"\*?" + e_name, r"\*?" + a_expr
+        cond = re.sub(rf"{E}\.len\(\) != {A}\.len\(\)|{A}\.len\(\) != {E}\.len\(\)", "opts.len_differs", cond)
+        cond = re.sub(rf"{E} != {A}|{A} != {E}", "opts.prefix_differs", cond)
         term = bool_expr(cond, {"len_differs": "pin_len_differs", "prefix_differs": "pin_prefix_differs"})
         w("Record pin_obs := { pin_len_differs : bool; pin_prefix_differs : bool }.")
         w(f"Definition pin_refuses (o : pin_obs) : bool := {term}.")
         # nothing touches the output before this check
-        body = need(r"async fn clone_archive<R>\(opts: Options, reader: R\)(.*?)\n}\n", cl, "clone_archive body").group(1)
         before = body[:body.find("opts.header_checksum")]
         if re.search(r"OpenOptions|File::create|remove_file|rename\(", before):
             raise TranslateError("a file operation precedes the header checksum check")
